@@ -109,7 +109,7 @@ Proof. exact (grideval_agrees_pointwise F t grids s a Hwf HRM Hgne Hev). Qed.
    continuous, so the right-continuous convention of splineutil's bspline and the left-continuous one of pointwise
    evaluation give the same value (C17_Upper.Bfun_sides_agree). What remains excluded is only what the property itself
    excludes or what is a known finding: order-0 dimensions at/above the upper end (the grid gives 0 at the last knot,
-   C17_last_knot_differs) and repeated knots there (finding D17 / C17:grideval:repeated-knot->NaN). *)
+   C17_last_knot_differs) and repeated knots there (where pointwise evaluation itself is at fault: finding D17 of C01). *)
 Theorem C17_agrees_pointwise_upper : forall g cs, grid_in g grids ->
   searchcenters t (grid_point grids g) = CFound cs ->
   Forall2 side_ok (dims t) (grid_point grids g) ->
@@ -131,12 +131,15 @@ Theorem C17_spec_is_pointwise : forall (A : Arith) (F : OField A) (t : @table A)
   grid_spec t xs = ndsplineeval t xs cs 0.
 Proof. intros A F. exact (grid_spec_pointwise F). Qed.
 
-(* splineutil.c's bspline (= EvalModel.bspline, plain division) is the Cox–de Boor function with 0/0 := 0 on non-decreasing
-   knots over an ordered field; in IEEE arithmetic 0/0 is NaN instead — finding C17:grideval:repeated-knot->NaN *)
-Theorem C17_bspline_is_cox_de_boor : forall (A : Arith) (F : OField A) (kn : Z -> T A) (nknots : Z),
-  (forall i j, (0 <= i)%Z -> (i <= j)%Z -> (j < nknots)%Z -> le (kn i) (kn j)) ->
-  forall x n i, (0 <= i)%Z -> (i + Z.of_nat n + 1 < nknots)%Z -> bspline kn n x i = Bfun kn true n i x.
-Proof. intros A F kn nknots H x. exact (bspline_Bfun F kn nknots H x). Qed.
+(* splineutil.c's bspline (GridModel.bspline_guarded: the recursion that skips a term whose denominator vanishes, as the
+   code does since fix 33ef56f) IS the right-continuous Cox–de Boor function with the 0/0 := 0 convention — for EVERY knot
+   sequence (repeated knots, any multiplicity, even unsorted), every order, every index and every x: nothing is excluded.
+   Before the fix the function divided 0/0 on repeated knots (NaN in IEEE arithmetic: former finding D23,
+   C17:grideval:repeated-knot->NaN); the corresponding statement about the unguarded recursion, which needed
+   non-decreasing knots and exact arithmetic, survives as C17_Proofs.bspline_Bfun (src/core/bspline.cpp's bspline). *)
+Theorem C17_bspline_is_cox_de_boor : forall (A : Arith) (F : OField A) (kn : Z -> T A),
+  forall x n i, bspline_guarded kn n x i = Bfun kn true n i x.
+Proof. intros A F kn x. exact (bspline_guarded_Bfun F kn x). Qed.
 
 (* ---------------------------------------------------------------------------------------------- *)
 (** * non-vacuity: a 2-dimensional table (orders 2 and 1, sparse coefficients) on exact rationals, an unsorted grid with a
@@ -207,6 +210,44 @@ Example C17_last_knot_differs :
   searchcenters ex0_tab [qz17 3] = CFound [2%Z] /\ ndsplineeval ex0_tab [qz17 3] [2%Z] 0 = qz17 3 /\ grid_spec ex0_tab [qz17 3] = qz17 0.
 Proof. split; [vm_compute; reflexivity|]. split; vm_compute; reflexivity. Qed.
 
+(* a REPEATED knot (regression of the former finding D23; corpus/C17/repeated_knot.json): order 1, knots 0 1 1 2 3,
+   coefficients 1 2 3, grid 1/2 3/2 5/2. The hypotheses of the theorems hold, grid evaluation gives 1/2 5/2 3/2, which is
+   the specification sum and — below the upper end of full support — pointwise evaluation. *)
+Definition exr_d : @dimn QcA := @mkDim QcA 1%nat 5 3 1 (fun z => qz17 (if (z <=? 1)%Z then z else z - 1)).
+Definition exr_tab : @table QcA := @mkTable QcA [exr_d] (fun i => qz17 (i + 1)).
+Definition exr_grids : list (list Qc) := [[Q2Qc (1 # 2); Q2Qc (3 # 2); Q2Qc (5 # 2)]].
+Example C17_repeated_knot_example :
+  d_kn exr_d 1%Z = d_kn exr_d 2%Z /\
+  Forall (@wfd QcA) (dims exr_tab) /\ RM (dims exr_tab) 3 /\
+  exists a, grideval exr_tab exr_grids = GOk a /\
+            nd_get a [0]%nat = Q2Qc (1 # 2) /\ nd_get a [1]%nat = Q2Qc (5 # 2) /\ nd_get a [2]%nat = Q2Qc (3 # 2) /\
+            nd_get a [1]%nat = grid_spec exr_tab [Q2Qc (3 # 2)] /\
+            nd_get a [1]%nat = ndsplineeval exr_tab [Q2Qc (3 # 2)] [2%Z] 0 /\
+            basis_matrix exr_d [Q2Qc (3 # 2)] = [[qz17 0; Q2Qc (1 # 2); Q2Qc (1 # 2)]].
+Proof.
+  assert (W : Forall (@wfd QcA) (dims exr_tab)).
+  { constructor; [|constructor]. unfold wfd, wf_dim, exr_d; cbn [d_order d_nknots d_naxes d_kn].
+    split; [lia|]. split; [lia|]. split; [auto|]. intros i j Hi Hij Hj. apply qz17_mono.
+    destruct (Z.leb_spec i 1), (Z.leb_spec j 1); lia. }
+  assert (R : RM (dims exr_tab) 3).
+  { change 3%Z with (d_naxes exr_d * 1)%Z. constructor; [constructor | reflexivity | cbn; lia]. }
+  assert (G : Forall (fun xs : list Qc => xs <> []) exr_grids) by (constructor; [discriminate|constructor]).
+  split; [reflexivity|]. split; [exact W|]. split; [exact R|].
+  destruct (grideval exr_tab exr_grids) as [|a] eqn:E; [vm_compute in E; discriminate|].
+  exists a. split; [reflexivity|].
+  assert (Ea : a = match grideval exr_tab exr_grids with GOk a0 => a0 | GThrow => a end) by (rewrite E; reflexivity).
+  split; [rewrite Ea; vm_compute; reflexivity|].
+  split; [rewrite Ea; vm_compute; reflexivity|].
+  split; [rewrite Ea; vm_compute; reflexivity|].
+  assert (Hin : grid_in (A := QcA) [1]%nat exr_grids) by (constructor; [cbn; lia | constructor]).
+  destruct (C17_grideval_spec QcA_OField exr_tab exr_grids 3 a W R G E) as [_ [S _]].
+  split; [exact (S _ Hin)|].
+  split; [|vm_compute; reflexivity].
+  apply (C17_agrees_pointwise QcA_OField exr_tab exr_grids 3 a W R G E _ _ Hin).
+  - vm_compute. reflexivity.
+  - constructor; [vm_compute; reflexivity|constructor].
+Qed.
+
 Print Assumptions C17_unflatten_flatten.
 Print Assumptions C17_flatten_unflatten.
 Print Assumptions C17_cols.
@@ -220,3 +261,4 @@ Print Assumptions C17_bspline_is_cox_de_boor.
 Print Assumptions C17_hypotheses_satisfiable.
 Print Assumptions C17_slice_hypotheses_satisfiable.
 Print Assumptions C17_last_knot_differs.
+Print Assumptions C17_repeated_knot_example.
